@@ -95,6 +95,7 @@ def run(ctx):
     comm_stream(ctx)
     pipeline_stream(ctx)
     subgroup_stream(ctx)
+    reject_stream(ctx)
 
 
 def extreme_stream(ctx):
@@ -167,9 +168,10 @@ def subgroup_stream(ctx):
         n = rng.choice([1, 2, 3, 5])
         dtype = rng.choice([torch.float32, torch.float64])
         entry = rng.choice(['broadcast', 'broadcast', 'allreduce', 'allreduce_bucketed'])
-        case = {'world': world, 'group': members, 'src': src, 'n': n, 'dtype': str(dtype), 'entry': entry}
+        avg = entry != 'broadcast' and rng.random() < 0.5
+        case = {'world': world, 'group': members, 'src': src, 'n': n, 'dtype': str(dtype), 'entry': entry, 'average': avg}
 
-        def prog(rank, members=members, src=src, n=n, dtype=dtype, entry=entry):
+        def prog(rank, members=members, src=src, n=n, dtype=dtype, entry=entry, avg=avg):
             import torch.distributed as dist
             g = dist.new_group(members)
             if rank not in members:
@@ -177,13 +179,13 @@ def subgroup_stream(ctx):
             tdc = TorchDistributedCommunicator(bucket_cap_mb=25.0)
             out = {}
             for symflag in (True, False):
-                t = sym_matrix(n, dtype, 2**20) * (rank + 1) + 3
+                t = (sym_matrix(n, dtype, 2**20) * (rank + 1) + 3) * (len(members) if avg else 1)
                 if entry == 'broadcast':
                     f = tdc.broadcast(t, src=src, group=g, symmetric=symflag)
                 elif entry == 'allreduce':
-                    f = tdc.allreduce(t, group=g, symmetric=symflag)
+                    f = tdc.allreduce(t, group=g, symmetric=symflag, average=avg)
                 else:
-                    f = tdc.allreduce_bucketed(t, group=g, symmetric=symflag)
+                    f = tdc.allreduce_bucketed(t, group=g, symmetric=symflag, average=avg)
                     tdc.flush_allreduce_buckets()
                 out[symflag] = f.wait() if not isinstance(f, torch.Tensor) else f
             return out
@@ -194,15 +196,62 @@ def subgroup_stream(ctx):
             continue
         for r in members:
             want = sym_matrix(n, dtype, 2**20) * (src + 1) + 3 if entry == 'broadcast' else \
-                sum(sym_matrix(n, dtype, 2**20) * (m + 1) + 3 for m in members)
+                sum(sym_matrix(n, dtype, 2**20) * (m + 1) + 3 for m in members)       # (averaged payloads were pre-multiplied)
             o = res[r]
             if not torch.equal(o[True], o[False]) or not torch.equal(o[False], want):
                 ctx.fail(f'rank {r} of group {members}: symmetric {entry} (source {src}) differs from the dense one / the expected tensor',
                          dict(case, schedule_seed=ctx.seed * 331 + trial), 'subgroup-value')
                 break
         ctx.evaluations += 1
-        ctx.case(('subgroup', world, tuple(members), src, n, entry), nontrivial=members.index(src) != src)
+        ctx.case(('subgroup', world, tuple(members), src, n, entry, avg), nontrivial=members.index(src) != src)
         ctx.count('subgroup-' + ('local!=global' if members.index(src) != src else 'local==global'))
+
+
+def reject_stream(ctx):
+    """a malformed symmetric tensor is rejected before ANYTHING is communicated — also when a bucket of the same group
+    already holds pending tensors that its arrival would otherwise flush (capacity overflow or dtype switch)"""
+    from kfac.distributed import NonSquareTensorError, TorchDistributedCommunicator
+    rng = ctx.rng
+    for trial in range(ctx.budget(12, 80)):
+        world = rng.choice([2, 3])
+        bad = rng.choice([(20, 30), (8, 8, 8), (2, 3), (4,), (3, 1)])
+        bad_dt = rng.choice([torch.float32, torch.float64])
+        cap = rng.choice([64, 200, 10**6])
+        case = {'world': world, 'bad_shape': list(bad), 'bad_dtype': str(bad_dt), 'cap_bytes': cap}
+
+        def prog(rank, bad=bad, bad_dt=bad_dt, cap=cap):
+            tdc = TorchDistributedCommunicator(bucket_cap_mb=(cap + 0.5) / 1e6)
+            w = simdist._tls.world
+            f1 = tdc.allreduce_bucketed(torch.full((2, 2), float(rank + 1)), symmetric=rng_sym)     # pending, float32
+            before = len([e for e in w.trace[rank] if e[0] == 'issue'])
+            try:
+                tdc.allreduce_bucketed(torch.ones(bad, dtype=bad_dt), symmetric=True)
+                out = 'accepted'
+            except NonSquareTensorError:
+                out = 'NonSquare'
+            issued = len([e for e in w.trace[rank] if e[0] == 'issue']) - before
+            tdc.flush_allreduce_buckets()
+            v = f1.wait() if not isinstance(f1, torch.Tensor) else f1
+            return out, issued, v
+
+        rng_sym = rng.random() < 0.5
+        wd, res = simdist.run_world(world, prog, seed=ctx.seed * 97 + trial)
+        if wd.exceptions or wd.stalled or wd.errors:
+            ctx.fail(f'run failed: exc={wd.exceptions} stalled={wd.stalled} errors={wd.errors[:2]}', case, 'reject-run')
+            continue
+        tot = float(sum(range(1, world + 1)))
+        for r in range(world):
+            out, issued, v = res[r]
+            if out != 'NonSquare':
+                ctx.fail(f'shape {bad} with symmetric=True was {out}', case, 'nonsquare-accepted')
+            elif issued != 0:
+                ctx.fail(f'{issued} collective(s) were started before the malformed tensor was rejected (a pending bucket was flushed)',
+                         case, 'comm-before-reject')
+            elif not torch.equal(v, torch.full((2, 2), tot)):
+                ctx.fail('the pending tensor was not reduced correctly after the rejection', case, 'reject-value')
+        ctx.evaluations += 1
+        ctx.case(('reject', world, bad, str(bad_dt), cap), nontrivial=True)
+        ctx.count('reject-after-pending')
 
 
 def pipeline_stream(ctx):
